@@ -1,3 +1,8 @@
+pub mod c05;
+pub mod c09;
+pub mod c11;
+pub mod c15;
 pub mod common;
 pub mod pool;
+pub mod probe;
 pub mod valuespace;
